@@ -470,7 +470,9 @@ impl Campaign for LoopCampaign {
           // the last one: the call before transfers only one record (a short count, which uinput never
           // produces) and what follows it fails — a writer that completes short writes must report that
           // failure too. (An interrupted write that is retried and delivers the batch once is accepted.)
-          for (count, kind, short) in [(0u32, 0u8, None), (0, 1, None), (1, 3, None), (0, 1, Some(24usize))] {
+          // (kinds 4-7 are kinds 0-3 in C20 mode: a hidden failure that loses the batch is a failure; three
+          // and six interruptions in a row: a bounded retry that runs out must report it)
+          for (count, kind, short) in [(0u32, 4u8, None), (0, 5, None), (1, 7, None), (3, 7, None), (6, 7, None), (2, 4, None), (0, 5, Some(24usize))] {
             if short.is_some() && k == 0 { continue; }
             let mut ck = case.clone(); ck.syswrite_fault = Some((k, count, kind)); ck.syswrite_short = short;
             match run_b(&ck, None) {
